@@ -68,6 +68,8 @@ EXTERNALS = {
     "hashbrown::raw::RawTable::remove": M(HB + ": erase + read", table="remove", writes=True),
     "hashbrown::raw::RawTable::reserve": M(HB + ": may rehash all via hasher", closures=True, table="insert_grow", writes=True, panics=True),
     "hashbrown::raw::RawTable::shrink_to": M(HB + ": may rehash all via hasher", closures=True, table="insert_grow", writes=True, panics=True),
+    "hashbrown::raw::RawTable::try_reserve": M(HB + ": may rehash all via hasher (in place or into a new allocation)", closures=True, table="insert_grow", writes=True),
+    "hashbrown::raw::RawTable::insert_entry": M(HB + ": insert (may grow and rehash all) + as_mut", closures=True, table="insert_grow", writes=True, panics=True, ret_from=(0,)),
     "hashbrown::raw::Bucket::as_ptr": M(HB + ": pointer arithmetic"),
     "hashbrown::raw::Bucket::as_ref": M(HB + ": &*as_ptr"),
     "hashbrown::raw::Bucket::as_mut": M(HB + ": &mut *as_ptr"),
